@@ -1,8 +1,8 @@
 SPECIFICATION Spec
 CONSTANTS
-  Sizes <- SizesSmall
-  NB = 4
-  Times = {1, 2, 3, 5, 6, 13, 14, 17, 18, 21, 33, 50, 61, 66, 97}
+  SizesC <- SizesSmall
+  NBC = 4
+  Times = {1, 2, 5, 14, 17, 21, 33, 50, 61, 66, 97}
   MaxOps = 3
   Repaired = TRUE
 INVARIANTS TotalOK WindowsOK RangeOK LatestOK
